@@ -266,7 +266,12 @@ mod unstable {
         if replace {
             let varnames = choose_fresh_variable_names(
                 &formula.variables(),
-                &ivar.name.chars().next().unwrap().to_string(),
+                &ivar
+                    .name
+                    .trim_start_matches('_')
+                    .chars()
+                    .next()
+                    .map_or("I".to_string(), |c| c.to_string()),
                 1,
             );
             let fvar = varnames[0].clone();
